@@ -168,6 +168,7 @@ type frame struct {
 	defers           *deferStack
 	result           Value
 	panicking        bool
+	recovered        bool // a deferred call of this frame stopped a panic (reset by the RunDefers that looks at it)
 	panicVal         Iface
 	byDefer          bool // this frame is a deferred call run by caller's defer machinery
 	phitemps         []Value
@@ -546,7 +547,23 @@ func (fr *frame) visit(instr ir.Instruction) continuation {
 		return kReturn
 
 	case *ir.RunDefers:
+		fr.recovered = false
 		fr.runDefers()
+		if fr.recovered {
+			// A deferred call panicked and a deferred call that ran after it recovered: that is
+			// "a recovered panic", after which control resumes at the Recover block (see the
+			// documentation of Function.Recover), not behind the rundefers instruction. (x/tools'
+			// interpreter falls through here; the two continuations agree exactly when the
+			// Recover block reloads what the return statement had stored.)
+			fr.recovered = false
+			fr.prevBlock = nil
+			fr.block = fr.fn.Recover
+			if fr.block == nil {
+				fr.result = zeroResults(fr.fn.Signature)
+				return kReturn
+			}
+			return kJump
+		}
 
 	case *ir.Panic:
 		v, ok := fr.get(instr.X).(Iface)
@@ -1112,6 +1129,7 @@ func doRecover(caller *frame, builtinIsDeferred bool) Value {
 		return Iface{}
 	}
 	pf := caller.caller
+	pf.recovered = true
 	pf.panicking = false
 	v := pf.panicVal
 	pf.panicVal = Iface{}
